@@ -33,7 +33,13 @@ rc, out = sh("git apply %s/patch.diff" % OUT)
 if rc != 0:
     print(json.dumps({"id": ID, "error": "patch does not apply", "out": out[-500:]}))
     sys.exit(2)
-if not SKIP:
+ONLY = [a.split("=", 1)[1] for a in sys.argv if a.startswith("--only=")]
+if ONLY:
+    rc, out = sh("cargo nextest run --workspace --no-fail-fast --offline " + " ".join("-E 'test(%s)'" % t for t in ONLY))
+    res["only_tests"] = ONLY
+    res["only_rc"] = rc
+    res["only_tail"] = out[-400:]
+elif not SKIP:
     rc, out = sh("cargo nextest run --workspace --no-fail-fast --tool-config-file pb:/w/lib/nextest.toml --profile pb --test-threads 8 --offline")
     res["suite_rc"] = rc
     junit = WT + "/target/nextest/pb/junit.xml"
@@ -57,7 +63,10 @@ if os.path.exists(OUT + "/demo.diff"):
     rc, out = sh("git apply %s/demo.diff" % OUT)
     if rc != 0:
         res["error"] = "demo.diff does not apply: " + out[-300:]
-demo = meta["demo_cmd"].replace("/tmp/mutw/%s/target" % ID, WT + "/target").replace("/tmp/mutw/%s" % ID, WT)
+import re
+demo = meta["demo_cmd"]
+demo = re.sub(r"git apply \S*demo\.diff\s*&&\s*", "", demo)          # demo.diff is applied above
+demo = re.sub(r"/tmp/mutw/%s(?!-out)" % ID, WT, demo)
 rc1, out1 = sh("timeout 3000 " + demo)
 res["demo_with_patch_rc"] = rc1
 rc, out = sh("git apply -R %s/patch.diff" % OUT)
@@ -65,7 +74,7 @@ rc2, out2 = sh("timeout 3000 " + demo)
 res["demo_without_patch_rc"] = rc2
 res["demo_tail_with_patch"] = out1[-600:]
 clean()
-ok = rc1 != 0 and rc2 == 0 and (SKIP or (res.get("compiles") and not res["baseline_broken_by_patch"]))
+ok = rc1 != 0 and rc2 == 0 and (SKIP or bool(ONLY) or (res.get("compiles") and not res["baseline_broken_by_patch"]))
 res["confirmed"] = bool(ok)
 print(json.dumps(res, indent=1))
 sys.exit(0 if ok else 1)
